@@ -125,6 +125,21 @@ pub enum Dimension {
     Unknown(String),
 }
 
+impl Dimension {
+    /// True if css defines fixed ratios between the units of this dimension.
+    fn has_fixed_ratios(&self) -> bool {
+        matches!(
+            self,
+            Self::LengthAbs
+                | Self::Angle
+                | Self::Time
+                | Self::Frequency
+                | Self::Resolution
+                | Self::None
+        )
+    }
+}
+
 impl Unit {
     /// Get the dimension of this unit.
     pub fn dimension(&self) -> Dimension {
@@ -165,7 +180,9 @@ impl Unit {
     pub fn scale_to(&self, other: &Self) -> Option<f64> {
         if self == other {
             Some(1.)
-        } else if self.dimension() == other.dimension() {
+        } else if self.dimension() == other.dimension()
+            && self.dimension().has_fixed_ratios()
+        {
             Some(self.scale_factor() / other.scale_factor())
         } else {
             None
